@@ -125,6 +125,12 @@ public:
 
   void resize(usize size, const T& value = T())
   {
+    if(&value >= _begin.item && &value < _end.item)
+    { // the argument is one of our own elements, which reserve() may relocate
+      T copy(value);
+      resize(size, copy);
+      return;
+    }
     usize _size = _end.item - _begin.item;
     if (size < _size)
     {
